@@ -224,7 +224,7 @@ Section Half.
     rewrite (N.mod_small (lo1 + q1 * Bh + q2)) by (rewrite HQdef in HQlt; lia).
     replace (lo1 + q1 * Bh + q2) with (Q + lo1) by (rewrite HQdef; lia).
     (* carry fix-up *)
-    symmetry.
+    clear Hq1 Hq2 HQdef Hqb. try clear h1 h2. try clear dl dh. try clear ds. try clear sh. try clear s.
     destruct (N.lt_ge_cases (rh + carry) M) as [Hnov|Hov].
     - rewrite (N.mod_small (rh + carry)) by assumption.
       destruct (N.ltb_spec (rh + carry) rh) as [|_]; [lia|].
